@@ -100,7 +100,8 @@ type rtCase struct {
 }
 
 var rtIDs = []string{"1", "a b", "\x00<&>\"\\é漢\U0001F600", "x/y?z#w%20", strings.Repeat("long", 50),
-	"a\\u0026b\\u003e"} // the last one: a literal backslash before u0026, the text of a JSON escape
+	"a\\u0026b\\u003e",              // a literal backslash before u0026, the text of a JSON escape
+	" lead", "trail ", "\tx\n", " "} // white space at the edges is part of the id
 
 // values of one round-trip case: field -> base value (nil = nil pointer)
 func rtValues(c rtCase) (map[string]any, string, []string) {
